@@ -56,6 +56,14 @@ impl<V, G> HnswIndex<V, G> {
         }
     }
 
+    pub fn vector_store(&self) -> &V {
+        &self.vector_store
+    }
+
+    pub fn graph_store(&self) -> &G {
+        &self.graph_store
+    }
+
     pub fn load<Ctx>(
         params: HnswParams,
         vector_store: V,
